@@ -20,6 +20,8 @@ def plan(tier):
         fn = "c22_bulk_len%d" % l
         gen.append("vk_proof! {\n" + ATTR % (l + 8) + "fn %s() { reply_bulk::<%d>(); }\n}\n" % (fn, l))
         p.add(MOD, H(fn, {"reply": "BulkString", "payload": "%d arbitrary bytes" % l}, "reply_bulk"))
+    gen.append("vk_proof! {\n" + ATTR % 8 + "fn c22_fixed() { reply_fixed(); }\n}\n")
+    p.add(MOD, H("c22_fixed", {"reply": "Null, BulkString(None), empty Array"}, "reply_fixed"))
     gen.append("vk_proof! {\n" + ATTR % 12 + "fn c22_integer() { reply_integer(); }\n}\n")
     p.add(MOD, H("c22_integer", {"reply": "Integer", "value": "|i| < 100000"}, "reply_integer"))
     for l in (() if tier == "quick" else (1,)):
